@@ -213,3 +213,65 @@ Example c03s_bad_ignored_report :
   existsb (fun kv => cstate_eqb (snd kv) Idle || cstate_eqb (snd kv) Connecting) (o_st o5) = false /\
   c03s_from [] o0 (firstn 5 tr) = true.
 Proof. vm_compute. repeat split; reflexivity. Qed.
+
+(* C03X: "a refresh may hold ONE extra connection per refreshing channel until the
+   swap", as a condition on every observed state: the registered replacements
+   (refreshingScRefs) and the channels marked refreshing are in bijection -- every
+   registered replacement belongs to an existing channel that is marked refreshing,
+   no channel has two, every refreshing channel has one (fields refr_slot,
+   refr_inj + nd_refr, refreshing_refr of the invariant InvK).  Every history,
+   harness-legal or not, every oracle; no guard. *)
+From GV Require Import Pool.InvC03X.
+
+Theorem C03X_holds_thm : forall raw ops,
+  C03X_ok raw (observe init_bal) (run raw init_bal ops) = true.
+Proof. exact C03X_holds. Qed.
+Print Assumptions C03X_holds_thm.
+
+Theorem C03X_state_of_Inv : forall s, Inv s -> c03x_state (observe s) = true.
+Proof. exact c03x_state_of_Inv. Qed.
+Print Assumptions C03X_state_of_Inv.
+
+(* non-vacuity: [c03x_raw], [c03x_ops] (InvC03X.v): unresponsive detection on, a call
+   with a deadline placed on channel 0 ends with DeadlineExceeded after the window:
+   the replacement (connection 1) is registered for channel 0, which is marked
+   refreshing; [c03x_last] is the last observation of that run *)
+Example c03x_refresh_history_ex :
+  let tr := run c03x_raw init_bal c03x_ops in
+  map (fun ev => count_newsc (ev_out ev)) tr = [1; 0; 0; 0; 1]%nat /\
+  o_refr c03x_last = [(1%N, 0%nat)] /\
+  map sl_refreshing (o_slots c03x_last) = [true] /\
+  refreshing_slots 0 (o_slots c03x_last) = [0%nat] /\
+  last (map ev_obs tr) None = Some c03x_last /\
+  c03x_state c03x_last = true /\
+  C03X_ok c03x_raw (observe init_bal) tr = true.
+Proof. exact c03x_refresh_history. Qed.
+
+(* the monitor rejects the situation of seeded change C03-r5b: the replacement is
+   still registered but its channel is no longer marked refreshing ([c03x_cleared]:
+   the same observation with the `refreshing` marks cleared) *)
+Example c03x_bad_cleared_flag_ex :
+  let bad := c03x_cleared c03x_last in
+  let tr := run c03x_raw init_bal c03x_ops in
+  o_refr bad = [(1%N, 0%nat)] /\ map sl_refreshing (o_slots bad) = [false] /\
+  c03x_state bad = false /\
+  nodup_nat (map snd (o_refr bad)) = true /\
+  forallb (fun i => memnat i (map snd (o_refr bad))) (refreshing_slots 0 (o_slots bad)) = true /\
+  C03X_ok c03x_raw (observe init_bal)
+          (firstn 4 tr ++ [mkEvent (OpDone 0 DDeadlineClient []) [ONewSC 1 1; OConnect 1] RNone [] (Some bad)]) = false /\
+  C03X_ok c03x_raw (observe init_bal) (firstn 4 tr) = true.
+Proof. exact c03x_bad_cleared_flag. Qed.
+
+(* the other ways to break the bijection: a refreshing channel without a registered
+   replacement; two replacements registered for one channel; a replacement for a
+   channel that does not exist *)
+Example c03x_bad_other_ex :
+  let ob refr slots :=
+    mkObs true 1 1 0 0 Ready [] [] [(0%N, Ready)] [(0%N, 0%nat)] slots 0 refr true (PSnap [0%nat]) 1 0 true in
+  let sl f := mkSlot 0 0 0 0 0 f 0 in
+  c03x_state (ob [] [sl true]) = false /\
+  c03x_state (ob [(1%N, 0%nat); (2%N, 0%nat)] [sl true]) = false /\
+  c03x_state (ob [(1%N, 1%nat)] [sl false]) = false /\
+  c03x_state (ob [(1%N, 0%nat)] [sl true]) = true /\
+  c03x_state (ob [] [sl false]) = true.
+Proof. exact c03x_bad_other. Qed.
